@@ -21,6 +21,7 @@ pub struct Tables {
     pub cmts: HashMap<String, i64>,
     pub cmt_texts: HashMap<i64, String>,
     next: i64,
+    pub map: usize,
 }
 
 impl Tables {
@@ -33,7 +34,7 @@ impl Tables {
         };
         let cmts: [&str; 3] = ["# c1", "#", "# k: looks like a field"];
         let mut t = Tables { keys: HashMap::new(), key_names: HashMap::new(), vals: HashMap::new(), val_texts: HashMap::new(),
-            cmts: HashMap::new(), cmt_texts: HashMap::new(), next: 1000 };
+            cmts: HashMap::new(), cmt_texts: HashMap::new(), next: 1000, map };
         for (i, k) in keys.iter().enumerate() { t.keys.insert(k.to_string(), i as i64 + 1); t.key_names.insert(i as i64 + 1, k.to_string()); }
         for (i, v) in vals.iter().enumerate() { t.vals.insert(v.to_string(), i as i64 + 1); t.val_texts.insert(i as i64 + 1, v.to_string()); }
         for (i, c) in cmts.iter().enumerate() { t.cmts.insert(c.to_string(), i as i64 + 1); t.cmt_texts.insert(i as i64 + 1, c.to_string()); }
@@ -41,7 +42,7 @@ impl Tables {
     }
     pub fn empty() -> Tables {
         Tables { keys: HashMap::new(), key_names: HashMap::new(), vals: HashMap::new(), val_texts: HashMap::new(),
-            cmts: HashMap::new(), cmt_texts: HashMap::new(), next: 1 }
+            cmts: HashMap::new(), cmt_texts: HashMap::new(), next: 1, map: 0 }
     }
     pub fn key_id(&mut self, s: &str) -> i64 {
         if let Some(i) = self.keys.get(s) { return *i; }
@@ -212,6 +213,10 @@ pub fn apply(t: &Tables, live: &mut Live, op: &Value) -> Result<bool, String> {
         }
         _ => {
             let n = live.paras().len();
+            // an index beyond the last position is "out of range" in the model: written as the next number, or as one of
+            // the large values an index type narrower than usize would fold back into range
+            let i = if i > n { [i, 1usize << 32, usize::MAX, 1usize << 16, 256][(t.map + 3 * (n % 2)) % 5] } else { i };
+            let i = if i > n && i < usize::MAX && (n + p) % 2 == 1 { i.wrapping_add(n.min(1)) } else { i };   // (also 2^32 + 1)
             let d = match &mut live.obj { Obj::Doc(d) => d, Obj::Solo(_) => return Err("paragraph op on solo".into()) };
             match name.as_str() {
                 "add_para" => {
